@@ -533,6 +533,10 @@ pub fn all() -> Vec<(&'static str, &'static str, fn() -> R)> {
         ("C15", "small_cycle", c15_small_cycle),
         ("C11", "length_near_u64_max", c11_length_near_u64_max),
         ("C11", "failed_removal_rollback", c11_failed_removal_rollback),
+        ("C05", "readonly_on_absurd_lengths", c05_readonly_on_absurd_lengths),
+        ("C06", "foreign_overlong_chain", c06_foreign_overlong_chain),
+        ("C08", "foreign_free_garbage", c08_foreign_free_garbage),
+        ("C10", "refusals_on_deviating_files", c10_refusals_on_deviating_files),
         ("C02", "mini_stream_small", c02_mini_stream_small),
         ("C02", "mini_stream_limit", c02_mini_stream_limit),
     ]
@@ -1125,4 +1129,291 @@ pub fn c11_failed_removal_rollback() -> R {
         }
     }
     if failures.is_empty() { Ok(()) } else { Err(failures.join("; ")) }
+}
+
+
+/// Locates the directory entry (byte offset) of the root-level object `name` (ASCII) by
+/// scanning the directory chain of a crate-written file.
+fn find_entry(bytes: &[u8], sl: usize, name: &str) -> Option<usize> {
+    let units: Vec<u8> = name.bytes().flat_map(|b| [b, 0]).collect();
+    let mut k = sl / 128;
+    while (k + 1) * 128 <= bytes.len() {
+        let o = k * 128;
+        let nl = u16::from_le_bytes([bytes[o + 64], bytes[o + 65]]) as usize;
+        if nl == units.len() + 2 && bytes[o..o + units.len()] == units[..] && (bytes[o + 66] == 1 || bytes[o + 66] == 2) {
+            return Some(o);
+        }
+        k += 1;
+    }
+    None
+}
+
+/// C05: read-only handle operations on files whose entries record absurd lengths (both modes
+/// accept them): every seek / read / fill_buf / position / len returns Ok or Err.
+pub fn c05_readonly_on_absurd_lengths() -> R {
+    for v in [Version::V3, Version::V4] {
+        let sl = v.sector_len();
+        let (buf, mut c) = fresh(v);
+        c.create_stream("/a").unwrap().write_all(&[1u8; 100]).unwrap();
+        c.create_stream("/big").unwrap().write_all(&[2u8; 5000]).unwrap();
+        drop(c);
+        let base = buf.snapshot();
+        let lens = [u64::MAX, u64::MAX - 5, 0xC000_0000_0000_0000, 1u64 << 63, (1u64 << 63) - 1, (1u64 << 32) + 5, u32::MAX as u64];
+        for name in ["a", "big"] {
+            let o = find_entry(&base, sl, name).ok_or("entry not found")?;
+            for &len in lens.iter() {
+                for strict in [false, true] {
+                    let mut bytes = base.clone();
+                    bytes[o + 120..o + 128].copy_from_slice(&len.to_le_bytes());
+                    let what = format!("{:?} /{} length := {:#x} ({})", v, name, len, if strict { "strict" } else { "permissive" });
+                    let b = SharedBuf::new(bytes);
+                    let opened = no_panic(&format!("open {}", what), || if strict { CompoundFile::open_strict(b) } else { CompoundFile::open(b) })?;
+                    let mut c = match opened { Ok(c) => c, Err(_) => continue };
+                    no_panic(&format!("walk / entry, {}", what), || {
+                        let _ = c.walk().map(|e| e.len()).count();
+                        let _ = c.entry(format!("/{}", name)).map(|e| e.len());
+                    })?;
+                    let s = no_panic(&format!("open_stream {}", what), || c.open_stream(format!("/{}", name)))?;
+                    let mut s = match s { Ok(s) => s, Err(_) => continue };
+                    let r = catch_unwind(AssertUnwindSafe(|| {
+                        let mut b10 = [0u8; 10];
+                        let eff = s.len();
+                        for p in [0u64, 1, 99, 4999, eff / 2, eff.saturating_sub(1), eff, (1u64 << 63) + 5, u64::MAX] {
+                            let _ = s.seek(SeekFrom::Start(p));
+                            for d in [0i64, 1, -1, 4096, i64::MAX, i64::MIN, i64::MAX / 2] {
+                                let _ = s.seek(SeekFrom::Current(d));
+                                let _ = s.stream_position();
+                            }
+                            let _ = s.read(&mut b10);
+                            let _ = std::io::BufRead::fill_buf(&mut s).map(|b| b.len());
+                            std::io::BufRead::consume(&mut s, 0);
+                        }
+                        for d in [0i64, -1, 1, i64::MIN, i64::MAX, -4096] {
+                            let _ = s.seek(SeekFrom::End(d));
+                            let _ = s.seek(SeekFrom::Current(i64::MAX));
+                            let _ = s.seek(SeekFrom::Current(1));
+                            let _ = s.read(&mut b10);
+                        }
+                        let _ = s.len();
+                        let _ = s.is_empty();
+                    }));
+                    if r.is_err() {
+                        std::mem::forget(s);
+                        return Err(format!("panic in a read-only handle operation: {}", what));
+                    }
+                    no_panic(&format!("drop of a clean handle, {}", what), move || drop(s))?;
+                }
+            }
+        }
+    }
+    Ok(())
+}
+
+/// C06 / C08 on a file from another writer: a stream whose chain has MORE sectors than its
+/// recorded length needs (open accepts that in both modes), the surplus holding old bytes.
+/// Growing the stream - by set_len and by writing past the end - must behave like a byte
+/// vector: the gained bytes are zero, through the same handle, a fresh handle and after reopen.
+pub fn c06_foreign_overlong_chain() -> R {
+    for v in [Version::V3, Version::V4] {
+        let sl = v.sector_len();
+        for &(written, recorded) in &[(16 * 512usize, 4200usize), (16 * 512, 4096), (3 * 4096, 4097), (5 * 4096, 2 * 4096)] {
+            for script in 0..4 {
+                let (buf, mut c) = fresh(v);
+                c.create_stream("/x").unwrap().write_all(&[0xA1u8; 700]).unwrap();
+                c.create_stream("/big").unwrap().write_all(&vec![0xA1u8; written]).unwrap();
+                drop(c);
+                let mut bytes = buf.snapshot();
+                let o = find_entry(&bytes, sl, "big").ok_or("entry not found")?;
+                bytes[o + 120..o + 128].copy_from_slice(&(recorded as u64).to_le_bytes());
+                let what = format!("{:?} stream of {} bytes recorded as {} bytes (surplus sectors hold 0xA1), script {}", v, written, recorded, script);
+                let b = SharedBuf::new(bytes);
+                let mut c = match CompoundFile::open_strict(b.clone()) { Ok(c) => c, Err(_) => match CompoundFile::open(b.clone()) { Ok(c) => c, Err(_) => continue } };
+                let mut model: Vec<u8> = vec![0xA1; recorded];
+                let r = no_panic(&what, || -> Result<(), String> {
+                    let mut s = c.open_stream("/big").map_err(|e| e.to_string())?;
+                    match script {
+                        0 => {
+                            let n = recorded + sl + 300;
+                            s.set_len(n as u64).map_err(|e| e.to_string())?;
+                            model.resize(n, 0);
+                        }
+                        1 => {
+                            let n = written + 777;
+                            s.set_len(n as u64).map_err(|e| e.to_string())?;
+                            model.resize(n, 0);
+                        }
+                        2 => {
+                            // set_len, then a write in the middle of the gained region
+                            let n = recorded + 2 * sl;
+                            s.set_len(n as u64).map_err(|e| e.to_string())?;
+                            model.resize(n, 0);
+                            s.seek(SeekFrom::Start((recorded + sl) as u64)).map_err(|e| e.to_string())?;
+                            s.write_all(&[0x5A; 10]).map_err(|e| e.to_string())?;
+                            model[recorded + sl..recorded + sl + 10].copy_from_slice(&[0x5A; 10]);
+                        }
+                        _ => {
+                            // shrink inside the recorded length, then grow again
+                            s.set_len(4096).map_err(|e| e.to_string())?;
+                            model.truncate(4096);
+                            let n = recorded + 3 * sl + 1;
+                            s.set_len(n as u64).map_err(|e| e.to_string())?;
+                            model.resize(n, 0);
+                        }
+                    }
+                    s.flush().map_err(|e| e.to_string())?;
+                    let mut got = Vec::new();
+                    s.seek(SeekFrom::Start(0)).map_err(|e| e.to_string())?;
+                    s.read_to_end(&mut got).map_err(|e| e.to_string())?;
+                    if got != model {
+                        let d = got.iter().zip(model.iter()).position(|(x, y)| x != y);
+                        return Err(format!("the same handle reads {} bytes (expected {}), first difference at {:?}: {:#x?}", got.len(), model.len(), d, d.map(|k| got[k])));
+                    }
+                    Ok(())
+                })?;
+                r.map_err(|e| format!("{}: {}", what, e))?;
+                drop(c);
+                let mut c2 = CompoundFile::open(SharedBuf::new(b.snapshot())).map_err(|e| format!("{}: reopen: {}", what, e))?;
+                let mut got = Vec::new();
+                c2.open_stream("/big").and_then(|mut s| s.read_to_end(&mut got)).map_err(|e| format!("{}: read after reopen: {}", what, e))?;
+                if got != model {
+                    let d = got.iter().zip(model.iter()).position(|(x, y)| x != y);
+                    return Err(format!("{}: after reopen the stream has {} bytes (expected {}), first difference at {:?}: {:#x?} instead of zero", what, got.len(), model.len(), d, d.map(|k| got[k])));
+                }
+            }
+        }
+    }
+    Ok(())
+}
+
+/// C08 on a file that was OPENED (not created in this session) and whose free sectors and free
+/// mini sectors hold old data (the usual state after another writer removed streams): every
+/// kind of growth must read zeros in the gained range.
+pub fn c08_foreign_free_garbage() -> R {
+    for v in [Version::V3, Version::V4] {
+        let sl = v.sector_len();
+        let (buf, mut c) = fresh(v);
+        c.create_stream("/big").unwrap().write_all(&vec![0x11u8; 5000]).unwrap();
+        c.create_stream("/junk").unwrap().write_all(&vec![0xCCu8; 12 * sl]).unwrap();
+        c.create_stream("/small").unwrap().write_all(&[0x22u8; 300]).unwrap();
+        c.create_stream("/sjunk").unwrap().write_all(&[0xCCu8; 3000]).unwrap();
+        c.create_stream("/empty").unwrap();
+        c.remove_stream("/junk").unwrap();
+        c.remove_stream("/sjunk").unwrap();
+        drop(c);
+        let mut bytes = buf.snapshot();
+        // fill every FAT-free sector with 0xCC
+        let nsect = bytes.len() / sl - 1;
+        let fat0 = u32::from_le_bytes(bytes[76..80].try_into().unwrap()) as usize;
+        let mut filled = 0;
+        for i in 0..nsect.min(sl / 4) {
+            let cell = u32::from_le_bytes(bytes[(fat0 + 1) * sl + 4 * i..(fat0 + 1) * sl + 4 * i + 4].try_into().unwrap());
+            if cell == 0xFFFF_FFFF {
+                for x in bytes[(i + 1) * sl..(i + 2) * sl].iter_mut() { *x = 0xCC; }
+                filled += 1;
+            }
+        }
+        if filled == 0 {
+            return Err(format!("{:?}: no free sector to fill (the fixture changed)", v));
+        }
+        let cases: [(&str, u64, u64); 6] = [("/big", 5000, 8000), ("/big", 5000, 5000 + 6 * sl as u64), ("/empty", 0, 4096), ("/empty", 0, 9000), ("/small", 300, 4096), ("/small", 300, 6000)];
+        for (path, old, new) in cases.iter() {
+            for via_write in [false, true] {
+                let b = SharedBuf::new(bytes.clone());
+                let what = format!("{:?} opened file with 0xCC in {} free sectors: {} {} -> {} by {}", v, filled, path, old, new, if via_write { "seek + write of the last byte" } else { "set_len" });
+                let mut c = CompoundFile::open_strict(b.clone()).map_err(|e| format!("{}: strict open: {}", what, e))?;
+                let r = no_panic(&what, || -> Result<(), String> {
+                    let mut s = c.open_stream(path).map_err(|e| e.to_string())?;
+                    if via_write {
+                        // a byte vector cannot seek past its end: grow with set_len to new-1, then append one byte
+                        s.set_len(*new - 1).map_err(|e| e.to_string())?;
+                        s.seek(SeekFrom::End(0)).map_err(|e| e.to_string())?;
+                        s.write_all(&[0x7E]).map_err(|e| e.to_string())?;
+                    } else {
+                        s.set_len(*new).map_err(|e| e.to_string())?;
+                    }
+                    s.flush().map_err(|e| e.to_string())?;
+                    Ok(())
+                })?;
+                r.map_err(|e| format!("{}: {}", what, e))?;
+                drop(c);
+                for strict in [true, false] {
+                    let b2 = SharedBuf::new(b.snapshot());
+                    let mut c2 = if strict { CompoundFile::open_strict(b2) } else { CompoundFile::open(b2) }.map_err(|e| format!("{}: reopen: {}", what, e))?;
+                    let mut got = Vec::new();
+                    c2.open_stream(path).and_then(|mut s| s.read_to_end(&mut got)).map_err(|e| format!("{}: read: {}", what, e))?;
+                    let end = if via_write { *new - 1 } else { *new } as usize;
+                    if got.len() != *new as usize {
+                        return Err(format!("{}: length {} after reopen", what, got.len()));
+                    }
+                    if let Some(k) = got[*old as usize..end].iter().position(|&x| x != 0) {
+                        return Err(format!("{}: byte {} of the gained range [{}, {}) reads {:#x}, not zero", what, *old as usize + k, old, end, got[*old as usize + k]));
+                    }
+                }
+            }
+        }
+    }
+    Ok(())
+}
+
+/// C10 on files with tolerated deviations (another writer's non-canonical but accepted
+/// encodings: CLSID / timestamps on a stream, bytes after the name terminator, high length
+/// bits in version 3): every refused call leaves the bytes exactly as they were.
+pub fn c10_refusals_on_deviating_files() -> R {
+    for v in [Version::V3, Version::V4] {
+        let sl = v.sector_len();
+        let (buf, mut c) = fresh(v);
+        c.create_storage("/d").unwrap();
+        c.create_stream("/data").unwrap().write_all(&[3u8; 5000]).unwrap();
+        c.create_stream("/d/s").unwrap().write_all(&[4u8; 100]).unwrap();
+        drop(c);
+        let mut bytes = buf.snapshot();
+        let o = find_entry(&bytes, sl, "data").ok_or("entry not found")?;
+        for k in 80..96 { bytes[o + k] = 0x40 + k as u8; }          // CLSID on a stream
+        for k in 100..116 { bytes[o + k] = 0x50 + k as u8; }        // timestamps on a stream
+        for k in 12..40 { bytes[o + k] = 0x77; }                    // bytes after the name terminator
+        if v == Version::V3 { bytes[o + 124] = 0x5A; }              // high length bits
+        let od = find_entry(&bytes, sl, "d").ok_or("entry not found")?;
+        bytes[od + 116..od + 120].copy_from_slice(&7u32.to_le_bytes()); // start sector on a storage
+        bytes[od + 120..od + 124].copy_from_slice(&99u32.to_le_bytes()); // size on a storage
+        let b = SharedBuf::new(bytes);
+        let mut c = match CompoundFile::open(b.clone()) { Ok(c) => c, Err(e) => return Err(format!("{:?}: permissive open refuses the tolerated deviations: {}", v, e)) };
+        let uuid = uuid::Uuid::from_u128(0x1234);
+        let now = web_time::SystemTime::now();
+        let mut calls: Vec<(&str, Box<dyn FnMut(&mut CompoundFile<SharedBuf>) -> bool>)> = vec![
+            ("set_storage_clsid on a stream", Box::new(move |c| c.set_storage_clsid("/data", uuid).is_err())),
+            ("set_storage_clsid on a nested stream", Box::new(move |c| c.set_storage_clsid("/d/s", uuid).is_err())),
+            ("set_storage_clsid on a missing path", Box::new(move |c| c.set_storage_clsid("/nope", uuid).is_err())),
+            ("set_state_bits on a missing path", Box::new(|c| c.set_state_bits("/data/x", 1).is_err())),
+            ("set_created_time on a missing path", Box::new(move |c| c.set_created_time("/nope", now).is_err())),
+            ("set_modified_time on a missing path", Box::new(move |c| c.set_modified_time("/d/nope", now).is_err())),
+            ("touch on a missing path", Box::new(|c| c.touch("/nope").is_err())),
+            ("create_storage where a stream exists", Box::new(|c| c.create_storage("/data").is_err())),
+            ("create_storage under a stream", Box::new(|c| c.create_storage("/data/x").is_err())),
+            ("create_new_stream where a stream exists", Box::new(|c| c.create_new_stream("/data").is_err())),
+            ("create_stream where a storage exists", Box::new(|c| c.create_stream("/d").is_err())),
+            ("create_stream with an invalid name", Box::new(|c| c.create_stream("/a:b").is_err())),
+            ("open_stream on a storage", Box::new(|c| c.open_stream("/d").is_err())),
+            ("open_stream on a missing path", Box::new(|c| c.open_stream("/data/x").is_err())),
+            ("remove_stream on a storage", Box::new(|c| c.remove_stream("/d").is_err())),
+            ("remove_storage on a stream", Box::new(|c| c.remove_storage("/data").is_err())),
+            ("remove_storage on a non-empty storage", Box::new(|c| c.remove_storage("/d").is_err())),
+            ("remove_storage_all on a stream", Box::new(|c| c.remove_storage_all("/data").is_err())),
+            ("read_storage on a stream", Box::new(|c| c.read_storage("/data").is_err())),
+            ("seek before the start of a stream", Box::new(|c| c.open_stream("/data").map(|mut s| s.seek(SeekFrom::Current(-1)).is_err()).unwrap_or(false))),
+            ("set_len beyond the format maximum", Box::new(|c| c.open_stream("/data").map(|mut s| s.set_len(u64::MAX).is_err()).unwrap_or(false))),
+        ];
+        for (label, f) in calls.iter_mut() {
+            let before = b.snapshot();
+            let refused = no_panic(label, || f(&mut c))?;
+            if !refused {
+                continue; // not refused on this file: nothing to check here
+            }
+            let after = b.snapshot();
+            if after != before {
+                let d = after.iter().zip(before.iter()).position(|(x, y)| x != y);
+                return Err(format!("{:?} file with tolerated deviations on /data and /d: the refused call [{}] changed the bytes (first difference at offset {:?}, length {} -> {})", v, label, d, before.len(), after.len()));
+            }
+        }
+    }
+    Ok(())
 }
